@@ -265,7 +265,9 @@ func (ec *encClosure) sorted() []*ssa.Function {
 }
 
 // storeRoot classifies the root of an address: local | user | global | desc | unknown
-func storeRoot(v ssa.Value) (string, string) {
+func storeRoot(v ssa.Value) (string, string) { return storeRootD(v, map[*ssa.Phi]bool{}) }
+
+func storeRootD(v ssa.Value, seenPhi map[*ssa.Phi]bool) (string, string) {
 	for i := 0; i < 16; i++ {
 		switch x := v.(type) {
 		case *ssa.Alloc:
@@ -301,11 +303,15 @@ func storeRoot(v ssa.Value) (string, string) {
 		case *ssa.Phi:
 			// all edges must agree; take the worst
 			worst, why := "local", ""
+			if seenPhi[x] {
+				return "local", "" // a loop-carried address: decided by the edges that enter the cycle
+			}
+			seenPhi[x] = true
 			for _, e := range x.Edges {
 				if isNilConst(e) {
 					continue
 				}
-				k, w := storeRoot(e)
+				k, w := storeRootD(e, seenPhi)
 				if k != "local" {
 					worst, why = k, w
 				}
@@ -535,6 +541,9 @@ func extName(f *ssa.Function) string {
 
 func ruleNoHeap(c *Ctx) []Ob {
 	s := newSink(c, "E10.no-heap")
+	// the compiler's verdicts come with the file:line of the compiled program: they are mapped onto the program in which
+	// every function still has its own lines (no helper expansion)
+	c = c.plain()
 	ec := c.encodeClosure()
 	// functions by file/line range
 	type frange struct {
